@@ -1,5 +1,6 @@
 import WpModel.Model.Wire
 import WpModel.Model.GradientDraw
+import WpModel.Model.BackgroundDraw
 import WpModel.Drive.PdfStream
 
 /-!
@@ -22,8 +23,30 @@ def gitem? : Sx → Option GItem
                              colour := ← colour? col })
   | _ => none
 
+def bgprops? : List Sx → Option BgProps
+  | [skip, nr, unb, .atom rect, tx, ty] => do
+    some { skip := ← skip.bool?, noRepeat := ← nr.bool?, unbounded := ← unb.bool?, rect := rect, tx := ← tx.num?,
+           ty := ← ty.num? }
+  | _ => none
+
+def bitem? : Sx → Option BItem
+  | .list [.atom "bg", h, .list props, .list img] => do
+    some (.bg (← h.nat?) (← bgprops? props) (← allSome gitem? img))
+  | x => match gitem? x with
+    | some (.call c) => some (.call c)
+    | some (.grad h p) => some (.grad h p)
+    | none => none
+
 def handle (cmd : String) (args : List Sx) : Option String :=
   match cmd, args with
+  | "docbg", mark :: items => do
+    -- `(bg h (skip noRepeat unbounded rect tx ty) (image items…))`: draw_background_image replaced by the model
+    let mark ← mark.bool?
+    let items ← allSome bitem? items
+    match runBItems (World.init mark 0) items with
+    | .ok w => some ("ok | " ++ " | ".intercalate (w.streams.map showStreamToks) ++ " || " ++
+        " | ".intercalate (w.res.map showResKeys))
+    | .error e => some (showErr e)
   | "docgrad", mark :: items => do
     let mark ← mark.bool?
     let items ← allSome gitem? items
